@@ -12,7 +12,9 @@ Model of
     `(namespace of the annotated object, value)` — ingress.go `addTLS`, gateway.go `readCertRef`,
     host.go `setAuthTLSConfig`, backend.go `buildBackendProtocol` (secure-crt-secret,
     secure-verify-ca-secret, through `ConfigValue.defaultNamespace`), `buildBackendAuthHTTP`
-    (auth-secret), `setAuthExternal` + ingress.go's pre-built auth backend (auth-url svc://).
+    (auth-secret), `setAuthExternal` + ingress.go's pre-built auth backend (auth-url svc://);
+  * the LOOKUP site `oauth` (backend.go `buildBackendOAuth` + `updater.findBackend`): no `ns/name`
+    value, the auth backend is the one behind the `/oauth2` path of the host/path table.
 The definitions suffixed `Old` are the behaviour BEFORE the repairs c70e6fc, 05277b5, 6c4b527,
 bce3fec in /repo; they are kept only for the historical witnesses in Props/C09.lean.
 Strings are `List Char` so that every function is structurally recursive and `decide` can
@@ -298,6 +300,122 @@ def Res.foreignTo (r : Res) (src : Str) : Bool :=
   match r with
   | .obj ns _ => ns != src
   | _ => false
+
+/-! ## The `oauth` reference site (backend.go `buildBackendOAuth` + `updater.findBackend`)
+
+`oauth: oauth2_proxy` has no value that names a resource: the auth backend (= the Service behind
+the oauth2 proxy) is found by LOOKUP — the path `<oauth-uri-prefix>` (default `/oauth2`) among the
+hosts already built in the haproxy model, whatever ingress of whatever namespace declared them
+(hostnames are shared between namespaces).  The lookup does not go through the cache, so none of
+the four permission keys applies; its only cross-namespace guard is the comparison
+`path.Backend.Namespace == namespace` inside `findBackend`. -/
+
+/-- one `HostPath` of the haproxy model: `path.Path()` and `path.Backend.{Namespace,Name}` -/
+structure HPath where
+  path : Str
+  ns : Str
+  name : Str
+deriving DecidableEq, Repr, Inhabited
+
+/-- one `Host`: `Hostname` and `Paths` in the order of the slice -/
+structure HHost where
+  hostname : Str
+  paths : List HPath
+deriving DecidableEq, Repr, Inhabited
+
+/-- `strings.TrimRight(s, "/")` -/
+def trimRightSlash (s : Str) : Str := (s.reverse.dropWhile (· == '/')).reverse
+
+def sOAuth2Path : Str := ['/', 'o', 'a', 'u', 't', 'h', '2']
+def sOAuth2Proxy : Str := ['o', 'a', 'u', 't', 'h', '2', '_', 'p', 'r', 'o', 'x', 'y']
+def sOAuth2ProxyDash : Str := ['o', 'a', 'u', 't', 'h', '2', '-', 'p', 'r', 'o', 'x', 'y']
+
+/-- the test of `findBackend`'s inner loop -/
+def oauthCandidate (ns pfx : Str) (p : HPath) : Bool := trimRightSlash p.path == pfx && p.ns == ns
+
+/-- `updater.findBackend(namespace, uriPrefix)`: the hosts in the order `Hosts().Items()` yields them
+(a Go map: the list is ANY order, the theorems quantify over all of them), the paths of each host in
+slice order, first hit returns -/
+def findBackend : List HHost → Str → Str → Option HPath
+  | [], _, _ => none
+  | h :: hs, ns, pfx =>
+    match h.paths.find? (oauthCandidate ns pfx) with
+    | some p => some p
+    | none => findBackend hs ns pfx
+
+/-- SEEDED VARIANT (C09e, not the code): the host with the protected path's hostname is looked at
+first, WITHOUT the namespace comparison; the guarded loop is only the fallback -/
+def findBackendSeeded (hosts : List HHost) (ns hostname pfx : Str) : Option HPath :=
+  match (hosts.find? (·.hostname == hostname)).bind
+      (fun h => h.paths.find? (fun p => trimRightSlash p.path == pfx)) with
+  | some p => some p
+  | none => findBackend hosts ns pfx
+
+/-- what `buildBackendOAuth` reads of one path's configuration -/
+structure OAuthCfg where
+  /-- value of `oauth` when the key has a source (an annotation); `none`: not declared -/
+  oauth : Option Str
+  /-- external haproxy without the Lua json module -/
+  luaMissing : Bool := false
+  /-- the path also has a non empty `auth-url` (which has precedence) -/
+  authURL : Bool := false
+  /-- value of `oauth-uri-prefix` when the key has a source -/
+  uriPrefix : Option Str := none
+deriving DecidableEq, Repr
+
+inductive OAuthOut
+  /-- no `oauth` on the path: `AuthExternal` is left as it was -/
+  | untouched
+  /-- `auth-url` has precedence: what it left on the path stays -/
+  | kept
+  /-- `AlwaysDeny = true`, no auth backend -/
+  | deny
+  /-- `AuthBackendName = p`'s backend, `AllowedPath`/`AuthPath`/`RedirectOnFail` built from `pfx` -/
+  | proxy (p : HPath) (pfx : Str)
+deriving DecidableEq, Repr
+
+def oauthPrefix (c : OAuthCfg) : Str := trimRightSlash (c.uriPrefix.getD sOAuth2Path)
+
+/-- `buildBackendOAuth` for one path declared by an object of namespace `src` -/
+def buildOAuth (hosts : List HHost) (src : Str) (c : OAuthCfg) : OAuthOut :=
+  match c.oauth with
+  | none => .untouched
+  | some v =>
+    if v ≠ sOAuth2Proxy ∧ v ≠ sOAuth2ProxyDash then .deny
+    else if c.luaMissing then .deny
+    else if c.authURL then .kept
+    else
+      match findBackend hosts src (oauthPrefix c) with
+      | none => .deny
+      | some p => .proxy p (oauthPrefix c)
+
+/-- the same with the seeded lookup (for the witness) -/
+def buildOAuthSeeded (hosts : List HHost) (src hostname : Str) (c : OAuthCfg) : OAuthOut :=
+  match c.oauth with
+  | none => .untouched
+  | some v =>
+    if v ≠ sOAuth2Proxy ∧ v ≠ sOAuth2ProxyDash then .deny
+    else if c.luaMissing then .deny
+    else if c.authURL then .kept
+    else
+      match findBackendSeeded hosts src hostname (oauthPrefix c) with
+      | none => .deny
+      | some p => .proxy p (oauthPrefix c)
+
+/-- the host/path table without what other namespaces declared (their paths; a host they alone
+declared stays as a host without paths) -/
+def removeForeign (ns : Str) (hosts : List HHost) : List HHost :=
+  hosts.map fun h => { h with paths := h.paths.filter (·.ns == ns) }
+
+/-- every path of namespace `ns`, hosts and paths in table order -/
+def ownPaths (ns : Str) (hosts : List HHost) : List HPath :=
+  hosts.flatMap fun h => h.paths.filter (·.ns == ns)
+
+/-- SPEC of the site: the auth backend of a path declared in namespace `src` is a backend of
+`src`, or there is none.  No key opens this site. -/
+def oauthSpec (src : Str) : OAuthOut → Bool
+  | .proxy p _ => p.ns == src
+  | _ => true
 
 /-! ## Oracle (what the property demands of an observed run)
 
